@@ -50,7 +50,7 @@ PROP = "C07"
 REG = {
     "strength": "partial",
     "technique": "decision table by abstract interpretation of check_body_size + path rules (must-follow, control dependence) on the body states",
-    "claim": "check_body_size's abort/stream/nothing decision equals the reference table on all 160 abstract cells incl. the boundary (strictness) "
+    "claim": "check_body_size's abort/stream/nothing decision equals the reference table on all 256 abstract cells incl. the boundary (strictness) "
     "and the abort trace shape; every buffer append is followed by the check; streamed chunks are relayed once, in order, stored only on option; "
     "the HTTP/2 send buffer hands over submitted bytes once, in order, END_STREAM last (bounded schedules).",
     "note": "Abstract domain relates expected size to each threshold by {unset,<,=,>}; comparisons of a shape the interpreter does not model are an ANALYSIS-ERROR.",
@@ -90,8 +90,14 @@ class BodySizeSpec(HttpStreamSpec):
                 if a.endswith("stream_large_bodies"):
                     return ("opt", "thr") if self.cfg["thr_rel"] != "unset" else C(None)
                 raise AnalysisError(f"parse_size of an unknown option: {norm(expr)}")
-            if name == "len" and expr.args and attr_chain(expr.args[0]) in ("self.request_body_buf", "self.response_body_buf"):
-                return ("size", "pos")  # late case: buffer non-empty
+            if name == "len" and len(expr.args) == 1:
+                # the abstract value of a body buffer (also through a local alias / conditional expression) is its non-emptiness
+                arg = expr.args[0]
+                flag = HttpStreamSpec.value(self, arg, st, depth)
+                if attr_chain(arg) in ("self.request_body_buf", "self.response_body_buf") or (isinstance(arg, (ast.Name, ast.IfExp)) and is_const(flag) and isinstance(flag[1], bool)):
+                    if not (is_const(flag) and isinstance(flag[1], bool)):
+                        raise AnalysisError(f"emptiness of the body buffer is not known where {norm(expr)} is evaluated")
+                    return ("size", "pos" if flag[1] else "nonpos")  # body events carry >= 1 byte: non-empty buffer = positive size
             if name == "expected_http_body_size":
                 return ("size", "pos" if self.cfg["expected"] == "error" else self.cfg["expected"])
         return HttpStreamSpec.value(self, expr, st, depth)
@@ -133,7 +139,7 @@ class BodySizeSpec(HttpStreamSpec):
                     return row[rel]
                 if isinstance(op, (ast.Is, ast.IsNot)) and is_const(b) and b[1] is None and a[0] == "opt":
                     return isinstance(op, ast.IsNot)
-                raise AnalysisError(f"unmodelled comparison on body sizes: {norm(cond)}")
+                raise AnalysisError(f"unmodelled comparison on body sizes: {norm(cond)} (operands {a!r}, {b!r}; cell {self.cfg})")
         if isinstance(cond, ast.Name):
             v = self.value(cond, st, depth)
             if isinstance(v, tuple) and v and v[0] in ("size", "opt"):
@@ -315,8 +321,6 @@ def check(ctx):
             for request in (True, False):
                 for late in (False, True):
                     for expected in ("None", "nonpos", "pos", "error"):
-                        if late and expected != "pos":
-                            continue
                         cfg = {"limit_rel": limit_rel, "thr_rel": thr_rel, "expected": expected}
                         spec = BodySizeSpec(m, cfg)
                         env = {
@@ -336,15 +340,15 @@ def check(ctx):
                         # the malformed-Content-Length path (ValueError handler) is the abstract input 'error'
                         allf = finals
                         finals = [f for f in finals if (("handler", "ValueError") in f.trace) == (expected == "error")]
-                        if expected == "error" and not finals and limit_rel == thr_rel == "unset":
-                            finals = allf  # the size is never computed when no option is set
+                        if expected == "error" and not finals and (late or limit_rel == thr_rel == "unset"):
+                            finals = allf  # the framing size is never computed when no option is set / when the buffered bytes are the size
                         ctx.require(finals, f"check_body_size has no normal outcome for {cfg}")
                         n += 1
                         ctx.cells += 1
                         if limit_rel == "unset" and thr_rel == "unset":
                             want = "nothing"
-                        elif expected in ("None", "nonpos", "error"):
-                            want = "nothing"
+                        elif expected in ("None", "nonpos", "error") and not late:
+                            want = "nothing"  # (late: the bytes buffered so far are the size, whatever the framing headers announce)
                         elif limit_rel == "gt":
                             want = "abort"
                         elif thr_rel == "gt":
@@ -384,7 +388,7 @@ def check(ctx):
                             ctx.sample({"cell": cell, "reference": want, "outcomes": sorted({classify(f) for f in finals})})
     if not bad:
         ctx.ok("R07.1", f"{n} cells agree with the reference table")
-    ctx.require(n == 160, f"decision table has {n} cells, expected 160")
+    ctx.require(n == 256, f"decision table has {n} cells, expected 256")
 
     # ---- R07.2 append -> check
     def resolver_none(call):
@@ -499,6 +503,8 @@ def _parents(n):
 
 I = REL
 MUTANTS = [
+    Mutant("late-size-from-framing-headers", I, "        if request and self.request_body_buf:\n            expected_size = len(self.request_body_buf)\n        elif response and self.response_body_buf:\n            expected_size = len(self.response_body_buf)\n        else:\n",
+           "        if False:\n            pass\n        else:\n", "R07.1"),
     Mutant("h2-remainder-requeued-at-the-back", H2B, "                self.stream_buffers[stream_id].appendleft(", "                self.stream_buffers[stream_id].append(", "R07.5"),
     Mutant("h2-partial-chunk-keeps-end-stream", H2B, "                    data=chunk.data[:available_window],\n                    end_stream=False,", "                    data=chunk.data[:available_window],\n                    end_stream=chunk.end_stream,", "R07.5"),
     Mutant("h2-split-drops-end-stream", H2B, "                self.send_data(stream_id, chunk, end_stream=end_stream and is_last)", "                self.send_data(stream_id, chunk, end_stream=False)", "R07.5"),  # F-C07 returning
